@@ -104,6 +104,7 @@ def parseCtx (flags mark : String) : Option Ctx :=
     let m := if mark.startsWith "w:" then (mark.drop 2).toString else mark
     if m == "none" then some .none else if m == "work" then some .workLimit
     else if m == "attempt" then some .attemptLimit else if m == "probe" then some .probeLimit
+    else if m == "shed" then some .loadShed
     else if m == "maxrec" then some .maxRecursion else if m == "canceled" then some .canceled
     else if m == "deadline" then some .deadline else if m == "other" then some .other else none
   marked.map fun mk =>
@@ -113,7 +114,7 @@ def parseCause (c : String) : Option Cause :=
   (parseCtx "-" c).map (·.marked)
 
 def causeStr : Cause → String
-  | .none => "none" | .workLimit => "work" | .attemptLimit => "attempt" | .probeLimit => "probe"
+  | .none => "none" | .workLimit => "work" | .attemptLimit => "attempt" | .probeLimit => "probe" | .loadShed => "shed"
   | .maxRecursion => "maxrec" | .canceled => "canceled" | .deadline => "deadline" | .other => "other"
 
 def parseCsv (s : String) : List String := if s == "-" then [] else s.splitOn ","
@@ -315,7 +316,13 @@ def stateful (s : Store) (w : List String) : Option (Store × String) :=
       let ctx ← parseCtx "-" mark
       let s' := match cls with
         | .servfail => s.writeBackFailure H now ctx k 0
-        | _ => s.writeBackAnswer H now k (decide (rs > 0) && (normalizeScope k.scope).isSome)
+        | _ =>
+          -- ecs.ReadResponseScope: SCOPE 0, no option, or a SCOPE longer than the family's
+          -- address is a global answer; otherwise the (clamped, non-zero) SCOPE files it scoped
+          let width : Int := match normalizeScope k.scope with
+            | some p => p.width
+            | none => 0
+          s.writeBackAnswer H now k (decide (rs > 0) && decide (rs ≤ width))
       some (s', s!"miss upstream=1 rcode={rc} {lenLookup s' now k}")
   | ["alias", n, c, cd, _opt, now, outcome] => do
     let k ← parseQ [n, "1", c, cd, "-"]; let now ← parseInt now
